@@ -109,7 +109,7 @@ template <typename B> static uint64_t hash_bytes(const B& b) { return fnv1a(b.da
 struct Op { char k = 'K'; uint8_t a = 0; uint32_t n = 0; };
 struct Program { std::vector<std::vector<Op>> th; };
 
-static constexpr int kSlots = 9;
+static constexpr int kSlots = 10;
 static const char kTlKinds[] = "KNIJGMXS";
 static bool is_tl(char k) { return k && strchr(kTlKinds, k) != nullptr; }
 static bool is_kind(char k) { return k && strchr("RTVPWKNIJGMXS", k) != nullptr; }
@@ -312,13 +312,13 @@ std::atomic<long> AtomicTracked::constructed{0}, AtomicTracked::destroyed{0}, At
 
 struct TagA; struct TagB;
 struct MV { long i = 0; std::string s; bool str = false; };   // model value
-static bool slot_is_str(int s) { return s == 3 || s == 4 || s == 8; }
+static bool slot_is_str(int s) { return s == 3 || s == 4 || s == 8 || s == 9; }
 static const char* slot_name(int s) {
   static const char* n[kSlots] = {"ThreadLocal<int,ThreadLocalSlot<TagA,0>>", "ThreadLocal<int,ThreadLocalSlot<TagA,1>>", "ThreadLocal<int>",
                                   "ThreadLocal<string,ThreadLocalSlot<TagA,0>>", "ThreadLocal<string,ThreadLocalTypeSlot<TagB>>",
                                   "ThreadLocal<AtomicTracked,ThreadLocalSlot<TagA,0>>", "ThreadLocal<AtomicTracked,ThreadLocalIndexSlot<1>>",
                                   // the three tag families name DIFFERENT slots even where their parameters look alike
-                                  "ThreadLocal<int,ThreadLocalIndexSlot<0>>", "ThreadLocal<string,ThreadLocalTypeSlot<TagA>>"};
+                                  "ThreadLocal<int,ThreadLocalIndexSlot<0>>", "ThreadLocal<string,ThreadLocalTypeSlot<TagA>>", "ThreadLocal<string>"};
   return n[s];
 }
 static MV mv_make(int tid, int slot, uint32_t n) {
@@ -339,6 +339,7 @@ template <> struct SlotDef<4> { using H = nop::ThreadLocal<std::string, nop::Thr
 template <> struct SlotDef<5> { using H = nop::ThreadLocal<AtomicTracked, nop::ThreadLocalSlot<TagA, 0>>; static int arg(const MV& v) { return (int)v.i; } };
 template <> struct SlotDef<6> { using H = nop::ThreadLocal<AtomicTracked, nop::ThreadLocalIndexSlot<1>>; static int arg(const MV& v) { return (int)v.i; } };
 template <> struct SlotDef<7> { using H = nop::ThreadLocal<int, nop::ThreadLocalIndexSlot<0>>; static int arg(const MV& v) { return (int)v.i; } };
+template <> struct SlotDef<9> { using H = nop::ThreadLocal<std::string>; static std::string arg(const MV& v) { return v.s; } };
 template <> struct SlotDef<8> { using H = nop::ThreadLocal<std::string, nop::ThreadLocalTypeSlot<TagA>>; static std::string arg(const MV& v) { return v.s; } };
 
 static std::string real_show(const int& x) { return std::to_string(x); }
@@ -368,13 +369,14 @@ template <int I> struct RealSlot {
 
 // Real backend: lives inside one thread.
 struct RealTL {
-  std::tuple<RealSlot<0>, RealSlot<1>, RealSlot<2>, RealSlot<3>, RealSlot<4>, RealSlot<5>, RealSlot<6>, RealSlot<7>, RealSlot<8>> slots;
+  std::tuple<RealSlot<0>, RealSlot<1>, RealSlot<2>, RealSlot<3>, RealSlot<4>, RealSlot<5>, RealSlot<6>, RealSlot<7>, RealSlot<8>, RealSlot<9>> slots;
   template <typename F> std::string with(int s, F&& f) {
     switch (s) {
       case 0: return f(std::get<0>(slots)); case 1: return f(std::get<1>(slots)); case 2: return f(std::get<2>(slots));
       case 3: return f(std::get<3>(slots)); case 4: return f(std::get<4>(slots)); case 5: return f(std::get<5>(slots));
       case 6: return f(std::get<6>(slots)); case 7: return f(std::get<7>(slots));
-      default: return f(std::get<8>(slots));
+      case 8: return f(std::get<8>(slots));
+      default: return f(std::get<9>(slots));
     }
   }
   void construct_arg(int s, const MV& v) { with(s, [&](auto& x) { x.construct_arg(v); return std::string(); }); }
@@ -459,6 +461,12 @@ struct Calc : nop::Interface<Calc> {
   NOP_METHOD(Sum, std::int64_t(const std::vector<int>& v));
   NOP_METHOD(Unbound, int(int a));
   NOP_INTERFACE_API(Add, Concat, Sum, Unbound);
+};
+
+struct Second : nop::Interface<Second> {
+  NOP_INTERFACE("verif.c19.Second");
+  NOP_METHOD(Ping, int(int a));
+  NOP_INTERFACE_API(Ping);
 };
 
 struct RpcConn {
@@ -698,6 +706,13 @@ static std::string op_variant_burst(Ctx& c, const Op& o) {
 static std::string op_rpc(Ctx& c, const Op& o) {
   Rng r(mix64(((uint64_t)c.tid << 40) ^ ((uint64_t)o.a << 32) ^ o.n ^ 0x09c));
   RpcConn& k = c.conn;
+  {
+    // interface descriptors are pure functions of the declaration, whatever was asked first in this thread
+    const std::string n1 = (o.n & 1) ? std::string(Calc::GetInterfaceName()) : std::string(Second::GetInterfaceName());
+    const std::string n2 = (o.n & 1) ? std::string(Second::GetInterfaceName()) : std::string(Calc::GetInterfaceName());
+    const std::string w1 = (o.n & 1) ? "verif.c19.Calc" : "verif.c19.Second", w2 = (o.n & 1) ? "verif.c19.Second" : "verif.c19.Calc";
+    if (n1 != w1 || n2 != w2) return "!rpc-interface-name: GetInterfaceName() returned '" + n1 + "' / '" + n2 + "', the declarations say '" + w1 + "' / '" + w2 + "'";
+  }
   k.begin_call();
   const long before = k.handled;
   std::string out;
